@@ -476,6 +476,13 @@ func (fr *Frame) builtinAppend(in ssa.Instruction, args []Val, resT types.Type) 
 	e.assume(mkAnd(app("bvsle", newLen, newCap), app("bvsle", newCap, bvLitI(64, 1<<42))))
 	nothing := mkEq(tLen, bvLitI(64, 0))
 	e.heapSet(fr.st, key, srt, mkIte(nothing, heap, mkIte(fits, sto(heap, s.sBase(), inArr), sto(heap, r, reArr))))
+	if es == sStr {
+		// built-in fact of the append model: the first len(s) elements of the result are those of s
+		newHeap := e.heapGet(fr.st, key, srt)
+		rb := mkIte(mkOr(fits, nothing), s.sBase(), r)
+		ro := mkIte(mkOr(fits, nothing), s.sOff(), bvLitI(64, 0))
+		e.assume(mkImp(fr.pc, mkEq(app("labs", sel(newHeap, rb), ro, s.sLen()), app("labs", sArr, s.sOff(), s.sLen()))))
+	}
 	res := mkSlice(resT,
 		mkIte(mkOr(fits, nothing), s.sBase(), r),
 		mkIte(mkOr(fits, nothing), s.sOff(), bvLitI(64, 0)),
